@@ -48,7 +48,16 @@ def run(c):
         inp = [layers[i] for i in c[key]]
         if c.get('as_dict'):
             inp = {l: 1 for l in inp}
-        out[key] = [index[id(l)] for l in order_by_bases(inp)]
+        res = order_by_bases(inp)
+        got = [index[id(l)] for l in res]
+        # repeated use on the same layer objects (run after run in one interpreter): the caller reverses the list it was given
+        # (tear_down_unneeded does), asks again, and asks with the reversed result as the request; by
+        # C10_order_is_a_fixed_point / C10_reversed_result_as_request every answer is the first one.  The observation is the
+        # first answer that differs, if any.
+        res.reverse()
+        again = [index[id(l)] for l in order_by_bases(inp)]
+        back = [index[id(l)] for l in order_by_bases(list(reversed([layers[i] for i in got])))] if len(set(c[key])) == len(c[key]) else got
+        out[key] = again if again != got else back if back != got else got
     return out
 
 
